@@ -2,11 +2,11 @@ package main
 
 import (
 	"fmt"
-	"strconv"
-	"strings"
 	"net/http"
 	"net/http/httptest"
 	"net/url"
+	"strconv"
+	"strings"
 	"time"
 
 	"github.com/vulcand/oxy/v2/memmetrics"
@@ -94,9 +94,9 @@ func (t *urlTable) abstract(u *url.URL) (string, int) {
 
 type neverReady struct{}
 
-func (neverReady) Rating() float64             { return 0 }
-func (neverReady) Record(int, time.Duration)   {}
-func (neverReady) IsReady() bool               { return false }
+func (neverReady) Rating() float64           { return 0 }
+func (neverReady) Record(int, time.Duration) {}
+func (neverReady) IsReady() bool             { return false }
 
 var _ = memmetrics.SplitRatios
 
